@@ -619,3 +619,48 @@ Theorem downsample_path_outside_the_quantifier :
                forall s', List.In s' (d_samples db) -> sm_value s' = d_num r -> s' = s).
 Proof. exact downsample_not_in_range_samples. Qed.
 Print Assumptions downsample_path_outside_the_quantifier.
+
+(* ================================================================================================================
+   Round 5: the regular expressions behind the two oracles.  model/PromRegex.v gives the RE2 fragment the generators use
+   (literals, `.`, `|`, groups, `* + ?`, `^`, `$`) an executable meaning (tied to Go's regexp on every run); for it the
+   anchoring law that every selection theorem above takes as a hypothesis is PROVED, and the shortcut of seed C17-e
+   ("a value that begins with ^ and ends with $ is already anchored") is refuted.
+   ================================================================================================================ *)
+From Qryn Require Import model.PromRegex proofs.PromRegexProofs.
+
+(* LabelMatcher.GetVal / getMatchers wrap the value as ^(?:v)$; ClickHouse match() searches: the search of the wrapped
+   expression finds something iff the expression matches the WHOLE label value -- Prometheus' meaning -- for every
+   expression and every value; and the text of the wrapped expression is the text GetVal builds *)
+Theorem regex_anchoring_law : forall r v,
+  re_search (wrap r) v = re_whole r v /\ re_print (wrap r) = anchor (re_print r).
+Proof. exact (fun r v => conj (anchoring_law r v) (wrap_text r)). Qed.
+Print Assumptions regex_anchoring_law.
+
+(* the hypothesis `forall v p, re_match v (anchor p) = re_full v p` of prom_select_exact* / prof_select_exact* holds for the
+   oracle pair of every reader of pattern texts that reads the wrapped text as the wrapped expression *)
+Theorem anchoring_hypothesis_met_by_regex_semantics : forall rd : string -> option re,
+  (forall p, rd (anchor p) = option_map wrap (rd p)) ->
+  forall v p, re_match_of rd v (anchor p) = re_full_of rd v p.
+Proof. exact anchoring_law_for_readers. Qed.
+Print Assumptions anchoring_hypothesis_met_by_regex_semantics.
+
+(* seed C17-e: "starts with ^ and ends with $" does not mean anchored -- ^api|canary$ searched finds api-gateway, Prometheus
+   rejects it (Examples shortcut_witness_alternation, shortcut_witness_escaped_dollar for ^api\$) *)
+Theorem self_anchored_values_need_wrapping :
+  ~ (forall r v, re_wf r = true -> self_anchored (re_print r) = true -> re_search r v = re_prom r v).
+Proof. exact self_anchored_shortcut_refuted. Qed.
+Print Assumptions self_anchored_values_need_wrapping.
+
+(* the same in terms of the oracles: a GetVal with the shortcut breaks the anchoring law (on which every exactness theorem
+   rests) for every reader that reads ^api|canary$ as RE2 does, while the wrapping GetVal keeps it *)
+Theorem getval_shortcut_breaks_anchoring_law : forall rd : string -> option re,
+  rd "^api|canary$"%string = Some re_api_or_canary ->
+  (forall p, rd (anchor p) = option_map wrap (rd p)) ->
+  exists v p, re_match_of rd v (anchor_shortcut p) <> re_full_of rd v p /\ re_match_of rd v (anchor p) = re_full_of rd v p.
+Proof. exact shortcut_breaks_the_law. Qed.
+Print Assumptions getval_shortcut_breaks_anchoring_law.
+
+(* the only self-anchored shape for which searching the value as it is would be right: the anchors enclose ONE item *)
+Theorem enclosing_anchors_are_an_anchoring : forall r v, re_search (RCat RBol (RCat r REol)) v = re_whole r v.
+Proof. exact enclosing_anchors. Qed.
+Print Assumptions enclosing_anchors_are_an_anchoring.
